@@ -86,6 +86,12 @@ package rules
 //   test / filter-loop body / jumpIf loop and its body / Handle+namespace / jump lookup each moved
 //   into a helper, flow loop called through a method value, named results with bare return.
 //   Mutants re-run on the refactored shapes (r4 tree, helper tree) are still reported.
+//   Second robustness iteration (r5..r8, C13/r7, all silent): loops recognised in all three forms
+//   (c02LoopOf) with the element as range value or xs[i]; before/main/after as one loop over a literal
+//   list of stages (c02CallerStaged); result and END flag kept in fields of a run-state struct with the
+//   flow loop as its method (field form: c02CallerFields, fresh-literal initial flag); reserved-name
+//   helper as a lookup in a never-written package-level set (c02TableHas); recover helper writing the
+//   error result through a pointer; pipelines fetched by a helper with two results (c02Origins).
 //   P5 END test precomputed into a bool before the skip test but acted on after it;
 //   P6 skip and END tests as the cases of a tagless switch (in that order), END by early return.
 
@@ -117,6 +123,7 @@ type c02Anchors struct {
 	siteFn                                     *flow.Func    // the function containing that call (loopFn or a helper it calls)
 	handleSite                                 ast.Node      // handle, or the call in loopFn through which it is reached
 	chain                                      []*flow.Func  // helpers between loopFn and the Handle call
+	resField, sawField                         *types.Var    // field form: the run-state fields holding the result and the END flag
 	aliasFn                                    *types.Func   // method of FlowNode naming a node at run time
 }
 
@@ -472,7 +479,7 @@ func c02FlowLoop(c *core.Ctx, a *c02Anchors) {
 		c.Errorf("R-C02-1: anchor: Filter.Handle call does not have exactly one argument")
 		return
 	}
-	ctxObj := d.rootObj(handle.Args[0])
+	ctxN := d.norm(handle.Args[0]) // the context handed to the filter (a variable or a field of the run state)
 
 	// ---- R-C02-2: loop shape
 	loops := enclosingLoops(f.Body, hs)
@@ -649,18 +656,37 @@ func c02FlowLoop(c *core.Ctx, a *c02Anchors) {
 	// result: assigned from the Handle call
 	var resultObj, resultIn types.Object
 	var resultID *ast.Ident
+	// field form: the result is kept in a field of a run-state struct (`run.result = …Handle(..)`)
+	var resPathExpr ast.Expr
+	resPath := ""
 	switch as := d.parent(handle).(type) {
 	case *ast.AssignStmt:
 		if len(as.Rhs) == 1 && len(as.Lhs) == 1 {
 			resultIn = c02Obj(f, as.Lhs[0])
 			resultID, _ = ast.Unparen(as.Lhs[0]).(*ast.Ident)
+			if sel, ok := ast.Unparen(as.Lhs[0]).(*ast.SelectorExpr); ok && resultIn == nil && d.owner(handle) == f {
+				if s := f.Info.Selections[sel]; s != nil && s.Kind() == types.FieldVal {
+					if root, ok := ast.Unparen(sel.X).(*ast.Ident); ok && d.n[c02Obj(f, root)] == 1 && !d.taken[c02Obj(f, root)] {
+						resPathExpr, resPath = sel, d.norm(sel)
+						a.resField, _ = s.Obj().(*types.Var)
+					}
+				}
+			}
 		}
 	case *ast.ValueSpec:
 		if len(as.Names) == 1 && len(as.Values) == 1 {
 			resultIn, resultID = f.Info.Defs[as.Names[0]], as.Names[0]
 		}
 	}
-	if resultIn == nil {
+	isRes := func(e ast.Expr) bool {
+		if resPath != "" {
+			_, isSel := ast.Unparen(e).(*ast.SelectorExpr)
+			return isSel && d.norm(e) == resPath
+		}
+		o := d.rootObj(e)
+		return o != nil && (o == resultObj || o == resultIn)
+	}
+	if resultIn == nil && resPath == "" {
 		if _, isRet := d.parent(handle).(*ast.ReturnStmt); isRet && a.siteFn != f {
 			c.Undecide("R-C02-4", cons+"|returned result", pos(c, handle), "the helper returns Filter.Handle(..) directly; the result variable of the flow loop cannot be traced")
 			return
@@ -669,10 +695,12 @@ func c02FlowLoop(c *core.Ctx, a *c02Anchors) {
 		return
 	}
 	// the variable of the loop function that receives it (the helper's local handed out by return)
-	resultObj, resultID = d.outward(resultIn, resultID)
-	if o := d.owner(resultID); o != f {
-		c.Undecide("R-C02-4", cons+"|returned result", pos(c, handle), "the result of Filter.Handle stays inside helper "+a.siteFn.Name+": cannot identify the loop function's result variable")
-		return
+	if resPath == "" {
+		resultObj, resultID = d.outward(resultIn, resultID)
+		if o := d.owner(resultID); o != f {
+			c.Undecide("R-C02-4", cons+"|returned result", pos(c, handle), "the result of Filter.Handle stays inside helper "+a.siteFn.Name+": cannot identify the loop function's result variable")
+			return
+		}
 	}
 	// function results by type
 	strIdx, boolIdx := -1, -1
@@ -687,8 +715,9 @@ func c02FlowLoop(c *core.Ctx, a *c02Anchors) {
 			}
 		}
 	}
-	if strIdx < 0 || boolIdx < 0 {
-		c.Errorf("R-C02-3: anchor: the flow function %s does not return (string, …, bool)", cons)
+	fieldForm := resPath != "" && sig.Results().Len() == 0
+	if !fieldForm && (strIdx < 0 || boolIdx < 0 || resPath != "") {
+		c.Undecide("R-C02-3", cons+"|flow function hands out result and END flag", pos(c, fd), "the flow function neither returns (string, …, bool) nor keeps both in fields of a run-state struct")
 		return
 	}
 
@@ -708,8 +737,7 @@ func c02FlowLoop(c *core.Ctx, a *c02Anchors) {
 		if !ok || d.norm(base) != N {
 			return false
 		}
-		io := d.rootObj(ix.Index)
-		return io != nil && (io == resultObj || io == resultIn)
+		return isRes(ix.Index)
 	}
 	anyJumpIndex := 0
 	for _, g := range d.funcs {
@@ -789,7 +817,12 @@ func c02FlowLoop(c *core.Ctx, a *c02Anchors) {
 	}
 	c.Discharge("R-C02-3", cons+"|jump lookup", pos(c, lookups[0]), "next is assigned from N.JumpIf[result] of the node just run")
 
-	rRes, rNext := f.Render(resultID), f.Render(nextID)
+	rRes, rNext := "", f.Render(nextID)
+	if resPath != "" {
+		rRes = f.Render(resPathExpr)
+	} else {
+		rRes = f.Render(resultID)
+	}
 	kResEmpty := "eq:" + rRes + `==""`
 	kNextEmpty := "eq:" + rNext + `==""`
 	kNextEnd := "eq:" + rNext + "==" + a.endExact
@@ -949,7 +982,39 @@ func c02FlowLoop(c *core.Ctx, a *c02Anchors) {
 			}
 		}
 	}
-	checkWriters(resultObj, 0)
+	if resPath == "" {
+		checkWriters(resultObj, 0)
+	} else {
+		// field form: every assignment to that field of the run state, in the reach
+		for _, g := range d.funcs {
+			ast.Inspect(g.Body, func(n ast.Node) bool {
+				as, ok := n.(*ast.AssignStmt)
+				if !ok {
+					return true
+				}
+				for i, l := range as.Lhs {
+					if !isRes(l) {
+						continue
+					}
+					good := false
+					if len(as.Lhs) == len(as.Rhs) {
+						r := ast.Unparen(as.Rhs[i])
+						if v, ok := c02ConstString(f, r); ok && v == "" {
+							good = true
+						}
+						if r == ast.Expr(handle) {
+							good = true
+						}
+					}
+					if !good {
+						resWritersOK = false
+						c.Violate("R-C02-4", cons+"|writers of the result variable", pos(c, as), "the result field is assigned something other than \"\" or the value returned by Filter.Handle: the pipeline result is no longer the result of the last filter run")
+					}
+				}
+				return true
+			})
+		}
+	}
 	if resWritersOK {
 		c.Discharge("R-C02-4", cons+"|writers of the result variable", pos(c, handle), "result is written only by its \"\" initialisation and by Filter.Handle")
 	}
@@ -1026,7 +1091,11 @@ func c02FlowLoop(c *core.Ctx, a *c02Anchors) {
 		}
 		return out
 	}
-	nextParams, resParams := paramRenders(nextObj), paramRenders(resultObj)
+	nextParams := paramRenders(nextObj)
+	var resParams []string
+	if resultObj != nil {
+		resParams = paramRenders(resultObj)
+	}
 	viaParams := func(st *flow.State, k, outer string, params []string, dirty string) flow.Val {
 		if len(params) == 0 || st.Is(dirty, flow.True) || !strings.HasPrefix(k, "eq:"+outer+"==") {
 			return flow.Unknown
@@ -1082,12 +1151,47 @@ func c02FlowLoop(c *core.Ctx, a *c02Anchors) {
 	nsCalls := 0
 	// sawEnd: the variable returned as the bool result (if the function keeps one)
 	var sawID *ast.Ident
+	sawKey, sawName := "", ""
+	if fieldForm {
+		// the END flag: the bool field of the same run state that is assigned a constant
+		var sawExpr ast.Expr
+		ambiguous := false
+		ast.Inspect(f.Body, func(n ast.Node) bool {
+			as, ok := n.(*ast.AssignStmt)
+			if !ok || len(as.Lhs) != len(as.Rhs) {
+				return true
+			}
+			for i, l := range as.Lhs {
+				sel, ok := ast.Unparen(l).(*ast.SelectorExpr)
+				if !ok || d.norm(sel.X) != d.norm(resPathExpr.(*ast.SelectorExpr).X) {
+					continue
+				}
+				tv := f.Info.Types[as.Rhs[i]]
+				if b, isB := f.Info.Types[l].Type.Underlying().(*types.Basic); !isB || b.Kind() != types.Bool || tv.Value == nil {
+					continue
+				}
+				if sawExpr != nil && d.norm(sawExpr) != d.norm(l) {
+					ambiguous = true
+				}
+				sawExpr = l
+			}
+			return true
+		})
+		if sawExpr == nil || ambiguous {
+			c.Undecide("R-C02-3", cons+"|END is reported to the caller", pos(c, fd), "cannot identify the field of the run state that reports END")
+			return
+		}
+		sawKey, sawName = f.VarKey(sawExpr), types.ExprString(sawExpr)
+		if s := f.Info.Selections[ast.Unparen(sawExpr).(*ast.SelectorExpr)]; s != nil {
+			a.sawField, _ = s.Obj().(*types.Var)
+		}
+	}
 	ast.Inspect(f.Body, func(n ast.Node) bool {
 		switch x := n.(type) {
 		case *ast.FuncLit:
 			return false
 		case *ast.ReturnStmt:
-			if len(x.Results) > boolIdx {
+			if boolIdx >= 0 && len(x.Results) > boolIdx {
 				if o := c02Obj(f, x.Results[boolIdx]); o != nil {
 					if _, isVar := o.(*types.Var); isVar {
 						sawID = ast.Unparen(x.Results[boolIdx]).(*ast.Ident)
@@ -1097,6 +1201,9 @@ func c02FlowLoop(c *core.Ctx, a *c02Anchors) {
 		}
 		return true
 	})
+	if sawID != nil {
+		sawKey, sawName = f.VarKey(sawID), sawID.Name
+	}
 	// When Handle sits in a helper, the facts of the loop function are judged where the helper is
 	// entered (the helper cannot assign the loop function's locals) and remembered as events.
 	const (
@@ -1224,20 +1331,22 @@ func c02FlowLoop(c *core.Ctx, a *c02Anchors) {
 					case nextObj:
 						st.Set(evNextDirty, flow.False)
 					case resultObj:
-						st.Set(evResDirty, flow.False)
+						if resultObj != nil {
+							st.Set(evResDirty, flow.False)
+						}
 					}
 				}
 			}
 			if ast.Node(call) == hs && st.Is(evIn, flow.True) {
 				st.Set(evSnapPending, boolToVal(val(st, kNextEmpty) == flow.True || isTrue(st, aliasKeys)))
 				st.Set(evSnapNotEnd, boolToVal(len(endKeys) > 0 && isFalseAll(st, endKeys)))
-				st.Set(evSnapSawF, boolToVal(sawID != nil && st.Is(f.VarKey(sawID), flow.False)))
+				st.Set(evSnapSawF, boolToVal(sawKey != "" && st.Is(sawKey, flow.False)))
 			}
 			if fo, ok := callee.(*types.Func); ok && fo.FullName() == useNS {
 				good := false
 				if len(call.Args) == 1 {
 					if base, ok := d.fieldSel(call.Args[0], a.fNS); ok && d.norm(base) == N {
-						if sel, ok := ast.Unparen(call.Fun).(*ast.SelectorExpr); ok && d.rootObj(sel.X) == ctxObj && ctxObj != nil {
+						if sel, ok := ast.Unparen(call.Fun).(*ast.SelectorExpr); ok && d.norm(sel.X) == ctxN {
 							good = true
 						}
 					}
@@ -1252,7 +1361,7 @@ func c02FlowLoop(c *core.Ctx, a *c02Anchors) {
 			}
 			for i, l := range as.Lhs {
 				lo := c02Obj(f, l)
-				if lo == nil {
+				if lo == nil && !(resPath != "" && isRes(l)) {
 					continue
 				}
 				switch {
@@ -1270,7 +1379,7 @@ func c02FlowLoop(c *core.Ctx, a *c02Anchors) {
 					if !st.Is(evHandled, flow.True) && st.Is(evIn, flow.True) {
 						st.Set(evTouched, flow.True)
 					}
-				case lo == resultObj || lo == resultIn:
+				case (lo != nil && (lo == resultObj || lo == resultIn)) || (lo == nil && isRes(l)):
 					st.Set(evResDirty, flow.True)
 					if !(len(as.Rhs) == 1 && onChain(as.Rhs[0])) && st.Is(evIn, flow.True) && !st.Is(evHandled, flow.True) {
 						st.Set(evTouched, flow.True)
@@ -1308,7 +1417,7 @@ func c02FlowLoop(c *core.Ctx, a *c02Anchors) {
 		if !((len(endKeys) > 0 && isFalseAll(st, endKeys)) || st.Is(evNotEnd, flow.True) || (viaHelper && st.Is(evSnapNotEnd, flow.True))) && badEnd == nil {
 			badEnd = st
 		}
-		if sawID != nil && !(st.Is(f.VarKey(sawID), flow.False) || (viaHelper && st.Is(evSnapSawF, flow.True))) && badSaw == nil {
+		if sawKey != "" && !(st.Is(sawKey, flow.False) || (viaHelper && st.Is(evSnapSawF, flow.True))) && badSaw == nil {
 			badSaw = st
 		}
 	}
@@ -1327,9 +1436,9 @@ func c02FlowLoop(c *core.Ctx, a *c02Anchors) {
 	}
 	c.Check(badEnd == nil, "R-C02-3", cons+"|Handle never on an END node", pos(c, handle),
 		sprintf("all %d states at Handle have N.FilterName != END", len(states)), endWhy, witness(badEnd)...)
-	if sawID != nil {
+	if sawKey != "" {
 		c.Check(badSaw == nil, "R-C02-3", cons+"|no Handle once END was seen", pos(c, handle),
-			sprintf("all %d states at Handle have %s == false", len(states), sawID.Name),
+			sprintf("all %d states at Handle have %s == false", len(states), sawName),
 			"a filter runs after the flow recorded END (sawEnd is true): something runs after END", witness(badSaw)...)
 	}
 	c.RequireCount("R-C02-3", "abstract iterations that ran a filter and continue", iterations, 1)
@@ -1357,19 +1466,24 @@ func c02FlowLoop(c *core.Ctx, a *c02Anchors) {
 			continue
 		}
 		st := ex.State
-		if ex.Return == nil || len(ex.Return.Results) != sig.Results().Len() {
-			badRet = ex
-			continue
-		}
-		if c02Obj(f, ex.Return.Results[strIdx]) != resultObj {
-			badRet = ex
-		}
 		bv := flow.Unknown
-		be := ex.Return.Results[boolIdx]
-		if tv := f.Info.Types[be]; tv.Value != nil {
-			bv = boolToVal(constant.BoolVal(tv.Value))
-		} else if id, ok := ast.Unparen(be).(*ast.Ident); ok {
-			bv = st.Get(f.VarKey(id))
+		if fieldForm {
+			// the outputs are the fields themselves
+			bv = st.Get(sawKey)
+		} else {
+			if ex.Return == nil || len(ex.Return.Results) != sig.Results().Len() {
+				badRet = ex
+				continue
+			}
+			if c02Obj(f, ex.Return.Results[strIdx]) != resultObj {
+				badRet = ex
+			}
+			be := ex.Return.Results[boolIdx]
+			if tv := f.Info.Types[be]; tv.Value != nil {
+				bv = boolToVal(constant.BoolVal(tv.Value))
+			} else if id, ok := ast.Unparen(be).(*ast.Ident); ok {
+				bv = st.Get(f.VarKey(id))
+			}
 		}
 		if st.Is(evIn, flow.True) {
 			early++
